@@ -4,5 +4,6 @@ From AV Require Import Lib.Base Gen.Consts H1.Gates.
 (* shortest request head httparse accepts: "G / HTTP/1.1\r\n\r\n" *)
 Definition MIN_HEAD : N := 16.
 
-Definition std_cfg (wbs r h431 : N) (fix21 : bool) : cfg :=
-  mk_cfg H1_MAX_BUFFER_SIZE H1_MAX_PIPELINED_MESSAGES H1_PAYLOAD_MAX_BUFFER_SIZE wbs r MIN_HEAD h431 fix21.
+Definition std_cfg2 (wbs r h431 : N) (fix21 fix28 : bool) : cfg :=
+  mk_cfg H1_MAX_BUFFER_SIZE H1_MAX_PIPELINED_MESSAGES H1_PAYLOAD_MAX_BUFFER_SIZE wbs r MIN_HEAD h431 fix21 fix28.
+Definition std_cfg (wbs r h431 : N) (fix21 : bool) : cfg := std_cfg2 wbs r h431 fix21 false.
